@@ -2,8 +2,8 @@
    (in particular the walk along prev reached the start node within nv hops through finalized nodes),
    scan_delta and augment cannot fail: every hop is a residual arc, so x[from] has an entry pointing
    at `to` (forward entry of an arc from->to or reverse entry of an arc to->from).  A step with a
-   clear flag can therefore only fail in the search: compute_shortest_path = None or no deficit node
-   reached (l = k). *)
+   clear flag can therefore only fail in the search: compute_shortest_path = None (it never returns the start node: the node it
+   returns has negative excess). *)
 From Coq Require Import ZArith List Bool Lia ZifyBool.
 From Centro Require Import Base.Sx Base.EmdBase Model.Emd Model.EmdMcf
   Proofs.EmdDuality Proofs.EmdSsp Proofs.EmdHeap Proofs.EmdHeapPos Proofs.EmdHeapOrd Proofs.EmdHeapMem Proofs.EmdDijkstra Proofs.EmdDijkstraInit
@@ -48,22 +48,40 @@ Proof.
   - intros f0 t0 Hin. apply HH. cbn [hops]. fold from. rewrite EK. right. exact Hin.
 Qed.
 
+Lemma dijkstra_returns_deficit e rf rb : forall fuel st st' l, dijkstra fuel e rf rb st = Some (st', l) -> nz e l < 0.
+Proof.
+  induction fuel as [|f IH]; intros st st' l; cbn [dijkstra]; [discriminate|].
+  destruct (oget (fst (sp_h st)) 0) as [q0|]; [|discriminate]. cbn [bind].
+  destruct (nz e (fst q0) <? 0) eqn:E; [intros H; injection H as _ <-; lia|].
+  destruct (heap_remove_first _) as [h'|]; [|discriminate]. cbn [bind].
+  destruct (relax_fwd _ _ _ _) as [st3|]; [|discriminate]. cbn [bind].
+  destruct (relax_bwd _ _ _ _) as [st4|]; [|discriminate]. cbn [bind].
+  destruct (fst (sp_h st4)); [discriminate|]. apply IH.
+Qed.
+
+Lemma csp_returns_deficit nv d prev k rf rb e d' prev' rf' rb' l :
+  compute_shortest_path nv d prev k rf rb e = Some (d', prev', rf', rb', l) -> nz e l < 0.
+Proof.
+  unfold compute_shortest_path. destruct (dijkstra _ _ _ _ _) as [[st l0]|] eqn:ED; [|discriminate]. cbn [bind].
+  intros H. injection H as _ _ _ _ <-. eapply dijkstra_returns_deficit; eauto.
+Qed.
+
 Theorem step_fail_only_in_search nv c st : length c = nv ->
   (forall l tc, In l c -> In tc l -> (fst tc < nv)%nat /\ 0 <= snd tc) ->
   RunInv nv c st -> skel_x (m_x st) = skel_x (x_of nv (mk_arcs c)) ->
   step_flag st = false -> mcf_step st = MFail ->
-  match compute_shortest_path nv (m_d st) (m_prev st) (snd (pick_supply (m_e st) O 0 O)) (m_rf st) (m_rb st) (m_e st) with
-  | None => True
-  | Some (_, _, _, _, l) => l = snd (pick_supply (m_e st) O 0 O)
-  end.
+  compute_shortest_path nv (m_d st) (m_prev st) (snd (pick_supply (m_e st) O 0 O)) (m_rf st) (m_rb st) (m_e st) = None.
 Proof.
   intros LC GC [LE [LD [LP [[pi G] [RA CO]]]]] SK. unfold mcf_step, step_flag. rewrite LE.
   destruct (pick_supply (m_e st) 0 0 0) as [ms k] eqn:PS. cbn [snd].
   destruct (ms =? 0) eqn:E0; [discriminate|].
   destruct (compute_shortest_path nv (m_d st) (m_prev st) k (m_rf st) (m_rb st) (m_e st))
     as [[[[[d prev] rf] rb] l]|] eqn:EC; [|auto].
-  destruct (l =? k)%nat eqn:ELK; [intros _ _; apply Nat.eqb_eq; exact ELK|]. apply Nat.eqb_neq in ELK.
   intros FL X. exfalso.
+  pose proof (csp_returns_deficit _ _ _ _ _ _ _ _ _ _ _ _ EC) as DEF.
+  assert (ELK : l <> k).
+  { intros ->. destruct (pick_supply_spec _ _ _ _ _ _ PS) as [[A _]|[A [_ B]]]; [lia|]. rewrite Nat.sub_0_r in B. unfold nz in DEF. lia. }
+  assert (ELKb : (l =? k)%nat = false) by (apply Nat.eqb_neq; exact ELK). rewrite ELKb in FL, X.
   assert (WF : walk_flag nv rf d prev k l = false).
   { destruct (walk_flag nv rf d prev k l); [discriminate|reflexivity]. }
   destruct (scan_delta_some rf d prev rb k nv l ms WF) as [delta ES].
